@@ -8,6 +8,24 @@ fn main() {
     std::process::exit(2);
   }
   let id = args[0].to_uppercase();
+  // `check C16 --dump-corpus DIR N`: seed corpus for the coverage-guided tier (generated, mutated requests)
+  if let Some(pos) = args.iter().position(|a| a == "--dump-corpus") {
+    let dir = std::path::PathBuf::from(args.get(pos + 1).cloned().unwrap_or_else(|| "corpus".into()));
+    let n: u64 = args.get(pos + 2).and_then(|s| s.parse().ok()).unwrap_or(500);
+    let seed: u64 = std::env::var("VERIF_SEED").ok().and_then(|s| s.trim().parse::<i64>().ok()).map(|v| v as u64).unwrap_or(0);
+    std::fs::create_dir_all(&dir).expect("corpus dir");
+    let strat = <props::c16::C16 as slverif::engine::Property>::strategy(Tier::Quick);
+    for i in 0..n {
+      let case = slverif::engine::sample_strategy(&strat, seed.wrapping_mul(1_000_003).wrapping_add(i));
+      let mut req = case.request.clone();
+      for m in case.mutations.iter() {
+        props::c16::mutate(&mut req, *m);
+      }
+      std::fs::write(dir.join(format!("seed-{i:05}.json")), req.to_string()).expect("write corpus file");
+    }
+    println!("wrote {n} corpus files to {}", dir.display());
+    return;
+  }
   let mut tier = match std::env::var("VERIF_TIER").ok().as_deref() {
     Some("thorough") => Tier::Thorough,
     _ => Tier::Quick,
